@@ -20,6 +20,7 @@ use ndarray::ShapeBuilder;
 use crate::proto::*;
 use crate::q::Q;
 use crate::z::Z;
+use crate::z32::Z32;
 
 pub enum Outcome {
     Text(String),
@@ -747,6 +748,9 @@ pub fn run_line(line: &str) -> String {
             "F" => run_op::<f64>(&mut t).map(|o| (matches!(o, Outcome::Berr(_)), o.show::<f64>())),
             // i64 elements (through the transparent stand-in `Z`): integer division, integer casts
             "I" => run_op::<Z>(&mut t).map(|o| (matches!(o, Outcome::Berr(_)), o.show::<Z>())),
+            // f32 and i32 elements
+            "G" => run_op::<f32>(&mut t).map(|o| (matches!(o, Outcome::Berr(_)), o.show::<f32>())),
+            "J" => run_op::<Z32>(&mut t).map(|o| (matches!(o, Outcome::Berr(_)), o.show::<Z32>())),
             _ => Err(format!("bad scalar type {s}")),
         };
         match r {
